@@ -422,6 +422,17 @@ func solveOne(eng *Engine, fv *funcVC, k, id int, opt solveOpts) *Result {
 		return res
 	}
 	start := time.Now()
+	if fv.Items[k].Ob.Known != "" {
+		// an obligation recorded as a known finding is expected to fail: one short attempt only
+		// (callers never get to assume it; if it discharges the report says so)
+		st, out, _ := runSolver("z3new", files["z3new"], 5*time.Second)
+		if st == "unsat" {
+			return done("unsat", "z3new", time.Since(start).Milliseconds())
+		}
+		res.Status, res.Output, res.Query = st, out, files["z3new"]
+		res.Ms = time.Since(start).Milliseconds()
+		return res
+	}
 	if !opt.allAgree {
 		// stage 1: the fastest solver alone, briefly
 		short := opt.timeout
